@@ -145,7 +145,11 @@ class IterativeTighteningSearch(Bounded, Generic[B]):
                     lb = self.initial_bounds.lower_bound
             else:
                 lb = self.initial_bounds.lower_bound
-            return Range(min(lb, self.best_match.bounds().upper_bound), self.best_match.bounds().upper_bound)
+            ub = self.best_match.bounds().upper_bound
+            if self.initial_bounds.upper_bound < ub:
+                # the optimum is known to be no worse than the initial upper bound
+                ub = self.initial_bounds.upper_bound
+            return Range(min(lb, ub), ub)
 
     def _delete_node(self, node: HeapNode[B, Range]):
         self._untightened.decrease_key(node, Range(NEGATIVE_INFINITY, NEGATIVE_INFINITY))
